@@ -35,6 +35,10 @@ CLAIMS.update({
  'C12': dict(text='Coq theorems: the value address of every payload shape is even (so bit 0 is free) for any 8-aligned block; for the four bit expressions translated from arc_union.rs each run, on every even 64-bit address: from_first tests first and borrows the same address, from_second tests second and borrows the address with the tag stripped, and the two stored words never coincide; borrow() dispatches to the variant of the same name and clone/drop/accessors go through it; in every history of the handle machine a union handle views a block built as its variant\'s type, reports its variant, clones to the same variant and block. Dynamic tie: ptr stream over all ordered pairs of 16x8 shapes (byte-aligned, ZST and equal types included) for both constructors, and the mech stream with unions interleaved with plain Arcs.',
              note=NOTE_MECH + ' Blocks are at least 8-aligned because every request has alignment >= 8 (C05).'),
 })
+CLAIMS.update({
+ 'C16': dict(text='Coq theorems with the increment modelled modulo 2^64 and the guard (compared value, operator, constant, action) and both abort definitions translated from the source each run: for EVERY starting count below 2^64, a clone at or below isize::MAX succeeds with count+1 and no wrap, above it aborts and produces no handle; no sequence of clones ever brings the count back to a smaller value; abort is process abort (std) or a panic raised while a Drop-panicking guard is live (no_std); every clone path of every handle kind is the guarded increment (funnel theorems on the handle machine + closed world of atomic sites). Tied dynamically by child processes: 13 clone entry points x 10 boundary counts preset through the hook-reported counter address, in std and no_std builds, observing SIGABRT with no output after the marker or count+1.',
+             note='Trusted: Coq kernel; tools/extract.py; "panic while panicking aborts" (Rust runtime; exercised by the no_std children); the handle-machine funnel lemmas are tied to the code by the mech stream of C01/C02.'),
+})
 ORDER = ['C%02d' % i for i in range(1, 18)]
 NA_REASON = 'check under construction; not claimed yet (see DESIGN.md section 6 for the planned theorem)'
 
